@@ -23,7 +23,7 @@ func init() {
 		NotDecided: "the map semantics of AddDesc/RmDesc (value-level, see C18); strictness of the `last` comparison; exactly-once paging.",
 	})
 	registerProperty(&Property{ID: "C04", DesignRef: "DESIGN.md §4 C04, §3.3, §3.6",
-		Rules:      []string{"TS-EXISTS", "TS-MT-CONSISTENT", "TS-REFTAG", "TS-HASHBYTES#expected-digest", "TS-REFUSE#push", "TB-MEDIATYPE", "TS-DETECT", "PV-PATH#digest", "TB-GRAMMAR#tag", "TS-TOMBSTONE", "TB-RESERVED", "TS-DECLARED-TYPE"},
+		Rules:      []string{"TS-EXISTS", "TS-MT-CONSISTENT", "TS-REFTAG", "TS-HASHBYTES#expected-digest", "TS-REFUSE#push", "TB-MEDIATYPE", "TS-DETECT", "PV-PATH#digest", "TB-GRAMMAR#tag", "TS-TOMBSTONE", "TB-RESERVED", "TS-DECLARED-TYPE", "TS-BOUNDREAD"},
 		Technique:  techPath + "; table agreement on constants",
 		Decided:    "every path to the index insert passes the parse ok-edge and the ok-edge of an existence verifier that covers every Descriptor field of the parsed struct in the same repository; the declared media type is compared with the body's; reference is a grammar-checked tag or the compared digest; media-type tables agree; nothing mutating is reachable after any refusal; mutators sit behind the read-only guard; the body-kind detector gives up (which skips the comparison) only on paths that found every kind marker it reads empty.",
 		NotDecided: "well-formedness beyond what the JSON decoder and the reference checks establish; equality of the observable state before/after a refusal as a value.",
@@ -47,7 +47,7 @@ func init() {
 		NotDecided: "exactness of the list contents after arbitrary histories; filter semantics; union of pages.",
 	})
 	registerProperty(&Property{ID: "C08", DesignRef: "DESIGN.md §4 C08, §3.3, §3.2",
-		Rules:      []string{"TS-RANGE", "LK-CTA", "TS-CANCEL", "TS-REFUSE#upload", "PV-PATH#session", "FS-TEMP", "TS-CLEANUP", "TS-TIMER", "LK-GUARD-UPLOAD", "SH-RANGE-HDR", "TS-LOWWATER", "TS-PRUNE-TOTAL", "LK-CTA-UPLOAD", "TS-OPT-GUARD"},
+		Rules:      []string{"TS-RANGE", "LK-CTA", "TS-CANCEL", "TS-REFUSE#upload", "PV-PATH#session", "FS-TEMP", "TS-CLEANUP", "TS-TIMER", "LK-GUARD-UPLOAD", "SH-RANGE-HDR", "TS-LOWWATER", "TS-PRUNE-TOTAL", "LK-CTA-UPLOAD", "TS-OPT-GUARD", "TS-WRITE-LIVE"},
 		Technique:  techPath + "; lock analysis for check-then-act",
 		Decided:    "every write into an existing session is dominated by the Content-Range check and the state-offset equality against Size(); check and write under one lock (fails today: known finding); a failed Verify cancels; every exit of both commit methods unregisters the session; a refused chunk reaches no write; session ids never reach a path; the session cleanup removes the temp file; cache entries are only dropped after their cleanup; the expiry timer of the session cache is re-armable after it was stopped (a stopped timer is never left in the nil-tested field, and the function the timer runs leaves the field re-armed, cleared or nil once it has gone through the entries).",
 		NotDecided: "the count bound (asynchronous pruning, value-level); that status reports exactly the received bytes; expiry timing.",
